@@ -171,6 +171,15 @@ Proof.
     + symmetry. apply (repeat_cons k 0).
 Qed.
 
+Lemma strip_nul_pad_gen v k : strip_nul (v ++ repeat 0 k) = strip_nul v.
+Proof.
+  induction k as [|k IH].
+  - cbn [repeat]. rewrite app_nil_r. reflexivity.
+  - replace (repeat 0 (S k)) with (repeat 0 k ++ [0]).
+    + rewrite app_assoc, strip_nul_snoc. cbn. exact IH.
+    + symmetry. apply (repeat_cons k 0).
+Qed.
+
 (** ** header.Marshal of newHeader is the specification's frame header *)
 Lemma zlen_pad16 v : zlen v <= 16 -> zlen (pad16 v) = 16.
 Proof. intros. unfold pad16. rewrite zlen_app, zlen_repeat. unfold zlen in *. lia. Qed.
